@@ -8,7 +8,7 @@ import asmgen
 import asmprops
 import c10
 import common
-from common import SplitMix
+from common import SplitMix, hexb
 
 MODULES = ["DynasmVerif.Props.C01"]
 
@@ -116,6 +116,52 @@ def retry_evaluator(p, res, meta):
     return None
 
 
+def reassemble_program(rng, fam):
+    """routines that use the same local label name are committed and then RE-ASSEMBLED IN PLACE by an alter session with the same layout:
+    the session goes back, emits the forward reference again and defines the label again at the offset it already has (patching the
+    routines last-first when there are two). `>name` designates the first definition emitted after it — here the one of the same routine."""
+    g = asmgen.Gen(rng, "asm", fam, max_ops=10, base=0)
+    g.header()
+    lines, unit = g.lines, g.unit
+    off = 0
+    routines = []
+
+    def ex(bs):
+        nonlocal off
+        lines.append(f"ex {hexb(bs)}")
+        off += len(bs)
+
+    ex(rng.bytes(unit * rng.range(0, 3)))
+    name = rng.below(3)
+    for _ in range(rng.range(1, 2)):
+        shape = g.pick_shape(data_ok=False)
+        start = off
+        ph = g.placeholder(shape)
+        ex(ph)
+        lines.append(f"rf {name} 0 {shape[2]} {shape[3]} {shape[0]}")
+        mid = unit * rng.range(0, 3)
+        ex(rng.bytes(mid))
+        lines.append(f"ll {name}")
+        post = unit * rng.range(1, 3)
+        ex(rng.bytes(post))
+        routines.append((start, shape, len(ph), mid, post))
+    lines.append("c")
+    lines.append("alter{")
+    for (start, shape, n_ph, mid, post) in reversed(routines):
+        lines.append(f"goto {start}")
+        lines.append(f"ex {hexb(g.placeholder(shape))}")
+        lines.append(f"rf {name} {rng.choice([0, 0, unit])} {shape[2]} {shape[3]} {shape[0]}")
+        if mid:
+            lines.append(f"ex {hexb(rng.bytes(mid))}")
+        lines.append(f"ll {name}")
+        if rng.chance(1, 2):
+            lines.append(f"ex {hexb(rng.bytes(post))}")
+    lines.append("}alter")
+    lines.append("buf")
+    lines.append("fin")
+    return lines
+
+
 def check(run):
     rng = SplitMix(run.seed)
     thorough = run.tier == "thorough"
@@ -146,6 +192,10 @@ def check(run):
     for i in range(30000 if thorough else 1500):
         lines, meta = c10.session_program(rng, rng.choice(["x64", "x86", "a64", "rv"]), True, False)
         progs.append(lines)
+        metas.append(None)
+        nontrivial += 1
+    for i in range(3000 if thorough else 300):
+        progs.append(reassemble_program(rng, rng.choice(["x64", "x86", "a64", "rv"])))
         metas.append(None)
         nontrivial += 1
     stats = asmprops.process(run, progs, evaluator, metas, chunk=250)
